@@ -40,6 +40,7 @@ type Stats struct {
 	Unsat     int
 	Unknown   int
 	SolveTime time.Duration
+	Resets    int
 	Errors    []string
 }
 
@@ -219,7 +220,23 @@ func (s *Solver) readLine() (string, error) {
 }
 
 // Check runs (check-sat).
+// GCLimit: when more than this many terms are named in the solver, it is reset
+// and only the terms under the current assumptions are sent again. Definitions
+// of abandoned paths otherwise slow every later query down.
+var GCLimit = 12000
+
 func (s *Solver) Check() Result {
+	if len(s.defined) > GCLimit {
+		keep := s.assume
+		s.Reset()
+		s.assume = keep
+		for _, lv := range s.assume {
+			for _, t := range lv {
+				s.define(t)
+			}
+		}
+		s.Stats.Resets++
+	}
 	var sb strings.Builder
 	sb.WriteString("(check-sat-assuming (")
 	seen := map[int]bool{}
